@@ -230,6 +230,8 @@ def step (ref : Bool) (st : St) (toks : List Val) (_impl : String) : St × Out :
       let (st, tags) := specRes st t res
       (st, { model := m, spec := specOut st, tags := sizeTag st.ss.length :: tags })
     | _, _ => (st, { model := "bad-op" })
+  | [.w "step", _, _] => (st, { model := "ok", spec := some "ok" })     -- step-level lines are judged by "C09conc"
+  | [.w "iter", _, _] => (st, { model := "ok", spec := some "ok" })
   | _ => (st, { model := "bad-op" })
 
 def judge : Judge := { σ := St, init := {}, step := step false }
